@@ -4,7 +4,7 @@ from __future__ import annotations
 import asyncio
 import hashlib
 
-from .runner import HarnessError
+from .runner import HarnessError, SetupFailed
 from . import vworld
 
 SPA_ID = b"SPA01:02:03:04:05:06"
@@ -47,7 +47,7 @@ async def connect_async_spa(world, peer, keep_loops=False):
     finally:
         world.loop.jitter = tape
     if not spa.is_connected:
-        raise HarnessError("fault-free handshake did not connect: " + repr([e[1] for e in ev.log]))
+        raise SetupFailed("fault-free handshake did not connect: " + repr([e[1] for e in ev.log]))
     if not keep_loops:
         for t in list(tm._tasks):
             if t.get_name() in ("SPA:Ping loop", "SPA:Refresh loop", "ASYNC:Tidy tasks"):
